@@ -52,6 +52,13 @@ Proof.
   destruct (refresh retries (a_ans a) name _) as [[res0 rest] newmap].
   destruct newmap; intros H; injection H as _ _ <-; reflexivity.
 Qed.
+Lemma import_lookup_addr retries a c r count res a' r' :
+  import_lookup retries a c r count = (res, a', r') -> addr r' = addr r.
+Proof.
+  unfold import_lookup. destruct (Nat.eqb _ count); [intros H; injection H as _ _ <-; reflexivity|].
+  destruct (refresh_count retries (a_ans a) count _) as [[ok rest] newmap].
+  destruct newmap; intros H; injection H as _ _ <-; reflexivity.
+Qed.
 Lemma remove_part_addr hp r name id : addr (snd (remove_part hp r name id)) = addr r.
 Proof. unfold remove_part. reflexivity. Qed.
 
@@ -67,7 +74,9 @@ Proof.
   all: cbn [a_out a_h a_st] in *.
   all: repeat match goal with H : negb (Z.eqb ?z (m_coll _)) = false |- _ => apply negb_false_iff, Z.eqb_eq in H; try subst z end.
   all: repeat match goal with H : part_lookup _ _ _ _ _ _ = _ |- _ =>
-         let H' := fresh "PA" in pose proof (part_lookup_addr _ _ _ _ _ _ _ _ _ H) as H'; apply part_lookup_out in H; destruct H as [? [? ?]] end.
+         let H' := fresh "PA" in pose proof (part_lookup_addr _ _ _ _ _ _ _ _ _ H) as H'; apply part_lookup_out in H; destruct H as [? [? ?]]
+       | H : import_lookup _ _ _ _ _ = _ |- _ =>
+         let H' := fresh "PA" in pose proof (import_lookup_addr _ _ _ _ _ _ _ _ H) as H'; apply import_lookup_out in H; destruct H as [? [? ?]] end.
   all: cbn [a_out a_h a_st] in *.
   all: match goal with
   | |- context [append ?a ?r ?e] => destruct (append_out a r e) as [Ha|Ha]; rewrite Ha; cbn [a_out] in *
